@@ -511,6 +511,91 @@ def extract_array_len_guard(repo):
     return ctext, line, dropped
 
 
+SIG_DECL = r'\bvoid\s+PromelaDataModel::evaluateDecl\s*\(\s*void\s*\*\s*ast\s*\)\s*'
+
+
+def extract_decl_array(repo):
+    """evaluateDecl, branch `(*nameIter)->type == PML_VAR_ARRAY` (declaration `int arr[N]`), with the std::list<Data> behind
+    variable.compound["value"].array abstracted to its length (ghost verif_n, as for Data::operator[]):
+         int size = dataToInt(evaluateExpr(*opIterAsgn++));   -> the parameter `size` (any int)
+         variable.compound["size"] = Data(size);              -> verif_declared = size;
+         for (int i = 0; i < size; i++) { variable.compound["value"].array.push_back(Data(0, Data::INTERPRETED)); }
+                                                              -> loop kept, body PUSH(0) (verif_n++ and the pushed value asserted 0),
+                                                                 loop contract inserted
+    `Data variable;` must be declared inside the enclosing loop (the list starts empty: derived precondition verif_n == 0).
+    Dropped (listed): operand-list iterator statements, the assert on the iterator, the store into _variables."""
+    path = os.path.join(repo, SRC)
+    first, last, sigtext, body = rules.find_function(path, SIG_DECL)
+    m = re.search(r'else\s+if\s*\(\s*\(\s*\*\s*nameIter\s*\)\s*->\s*type\s*==\s*PML_VAR_ARRAY\s*\)\s*\{', body)
+    if not m:
+        raise rules.ExtractionError('evaluateDecl: PML_VAR_ARRAY branch not found')
+    ob = m.end() - 1
+    cb = rules.match_close(body, ob, '{', '}')
+    line = first + body.count('\n', 0, ob)
+    if not re.search(r'\bfor\s*\([^{]*nameIter[^{]*\)\s*\{\s*Data\s+variable\s*;', body[:ob]):
+        raise rules.ExtractionError('evaluateDecl: `Data variable;` is not declared at the top of the loop over the declared names (list may not start empty)')
+    t = re.sub(r'//[^\n]*', '', body[ob + 1:cb])
+    out, dropped = [], []
+    have = {'size': 0, 'decl': 0, 'loop': 0}
+    pos = 0
+    while True:
+        mm = re.compile(r'\s*').match(t, pos)
+        pos = mm.end()
+        if pos >= len(t):
+            break
+        mf = re.compile(r'for\s*\(').match(t, pos)
+        if mf:
+            cl = rules.match_close(t, mf.end() - 1)
+            hdr = ' '.join(t[mf.end():cl].split())
+            mb = re.compile(r'\s*\{').match(t, cl + 1)
+            if not mb:
+                raise rules.ExtractionError('evaluateDecl/PML_VAR_ARRAY: for loop without a block')
+            bcl = rules.match_close(t, mb.end() - 1, '{', '}')
+            inner = ' '.join(t[mb.end():bcl].split())
+            mh = re.match(r'^int (\w+) = (\d+); \1 (<=?) (size(?: [+-] \d+)?); (?:\1\+\+|\+\+\1)$', hdr)
+            if not mh:
+                raise rules.ExtractionError('evaluateDecl/PML_VAR_ARRAY: loop header outside the rules: ' + hdr)
+            v = mh.group(1)
+            bound = '(%s)%s' % (mh.group(4).replace('size', '(long)size'), ' + 1' if mh.group(3) == '<=' else '')
+            mp = re.match(r'^variable\.compound\["value"\]\.array\.push_back\(Data\(([^,()]+), Data::INTERPRETED\)\);$', inner)
+            if not mp:
+                raise rules.ExtractionError('evaluateDecl/PML_VAR_ARRAY: loop body outside the rules: ' + inner)
+            if not have['size']:
+                raise rules.ExtractionError('evaluateDecl/PML_VAR_ARRAY: fill loop before the definition of size')
+            # invariant over the abstraction: the list grew by one element per iteration since loop entry; the counter stays within the header's bound
+            out.append('  for (%s)\n    __CPROVER_assigns(%s, verif_n)\n'
+                       '    __CPROVER_loop_invariant(%s >= __CPROVER_loop_entry(%s) && verif_n >= __CPROVER_loop_entry(verif_n) && verif_n - __CPROVER_loop_entry(verif_n) == (size_t)((long)%s - (long)__CPROVER_loop_entry(%s)))\n'
+                       '    __CPROVER_loop_invariant((long)%s <= %s || %s == __CPROVER_loop_entry(%s))\n'
+                       '    __CPROVER_decreases(%s + 1 - (long)%s)\n  { PUSH(%s); }' % (hdr, v, v, v, v, v, v, bound, v, v, bound, v, mp.group(1).strip()))
+            have['loop'] += 1
+            pos = bcl + 1
+            continue
+        se = t.find(';', pos)
+        if se < 0:
+            raise rules.ExtractionError('evaluateDecl/PML_VAR_ARRAY: unterminated statement')
+        st = ' '.join(t[pos:se + 1].split())
+        pos = se + 1
+        if re.match(r'^int size = dataToInt\(evaluateExpr\(\*opIterAsgn\+\+\)\);$', st):
+            have['size'] += 1
+            continue
+        if re.match(r'^variable\.compound\["size"\] = Data\(size\);$', st):
+            out.append('  verif_declared = size;')
+            have['decl'] += 1
+            continue
+        if re.search(r'\bsize\b|\barray\b|push_back', st):
+            raise rules.ExtractionError('evaluateDecl/PML_VAR_ARRAY: statement on size / the value list outside the rules: ' + st)
+        dropped.append({'what': 'statement not on the size or the value list', 'text': st})
+    if have != {'size': 1, 'decl': 1, 'loop': 1}:
+        raise rules.ExtractionError('evaluateDecl/PML_VAR_ARRAY: expected one definition of size, one store of the declared size, one fill loop; found %s' % have)
+    ctext = ('/* contract: a declared array has exactly `size` elements (none for size <= 0), all 0, and records `size` as its declared size.\n'
+             '   derived precondition: `Data variable;` is fresh, so its value list is empty */\n'
+             'int verif_declared;\n#define PUSH(x) (__CPROVER_assert((x) == 0, "O_decl: the elements of a declared array are initialised with 0"), verif_n++)\n'
+             'static void decl_array(int size)\n  __CPROVER_requires(verif_n == 0)\n  __CPROVER_assigns(verif_n, verif_declared)\n'
+             '  __CPROVER_ensures(verif_declared == size)\n  __CPROVER_ensures(size <= 0 ==> verif_n == 0)\n  __CPROVER_ensures(size > 0 ==> verif_n == (size_t)size)\n;\n'
+             '/* %s:%d  evaluateDecl, branch PML_VAR_ARRAY; value list abstracted to its length */\nstatic void decl_array(int size)\n{\n%s\n}\n' % (SRC, line, '\n'.join(out)))
+    return ctext, line, dropped
+
+
 def extract(repo):
     path = os.path.join(repo, SRC)
     first, last, sig, body = rules.find_function(path, SIG)
@@ -551,6 +636,8 @@ def extract(repo):
         res['index_guards'].append({'function': fname, 'line': line, 'dropped': dropped})
     res['dataToBool_lines'] = d2b_lines
     al_code, al_line, al_dropped = extract_array_len_guard(repo)
+    da_code, da_line, da_dropped = extract_decl_array(repo)
+    res['decl_array'] = {'line': da_line, 'dropped': da_dropped}
     res['array_len_guard'] = {'function': 'setVariable', 'line': al_line, 'dropped': al_dropped}
     res['c'] = ('/* GENERATED on every run by engines/extract/pml_extract.py from %s */\n'
                 '#include <stdbool.h>\n#include <stddef.h>\n#include <limits.h>\n'
@@ -574,7 +661,7 @@ def extract(repo):
                 '  __CPROVER_requires(index <= 2147483647)\n'
                 '  __CPROVER_assigns(verif_n, verif_deref)\n'
                 '  __CPROVER_ensures(verif_n > index && verif_n >= __CPROVER_old(verif_n))\n;\n'
-                % (SRC, ', '.join('%s = %d' % (e, 300 + i) for i, e in enumerate(enum)))) + d2b + '\n' + idx_code + '\n' + al_code + '\n' + res['data_subscript'] + '\n' + '\n'.join(code)
+                % (SRC, ', '.join('%s = %d' % (e, 300 + i) for i, e in enumerate(enum)))) + d2b + '\n' + idx_code + '\n' + al_code + '\n' + res['data_subscript'] + '\n' + '\n'.join(code) + '\n' + da_code
     return res
 
 
